@@ -211,6 +211,11 @@ class EventQueue:
         self.seq += 1
         heapq.heappush(self.q, (self.now + delay, self.seq, fn, args))
 
+    def at(self, when, fn, *args):
+        """Schedule at an absolute virtual time (no now+delay rounding: equal times keep submission order)."""
+        self.seq += 1
+        heapq.heappush(self.q, (max(when, self.now), self.seq, fn, args))
+
     def empty(self):
         return not self.q
 
